@@ -61,7 +61,7 @@ def transform(rng, pred, ref):
     return p, r2, desc
 
 
-def summ_equal(a, b, metrics):
+def summ_equal(a, b, metrics, ordered=False):
     for k in KEYS_EXACT:
         if a[k] != b[k]:
             return f"{k}: {a[k]} vs {b[k]}"
@@ -71,6 +71,8 @@ def summ_equal(a, b, metrics):
             if la != lb:
                 return f"list_{m}: {la} vs {lb}"
             continue
+        if ordered and (len(la) != len(lb) or any(not close(x, y) for x, y in zip(la, lb))):
+            return f"list_{m} (as reported, in order): {la} vs {lb}"
         if len(la) != len(lb) or any(not close(x, y) for x, y in zip(sorted(la), sorted(lb))):
             return f"list_{m}: {sorted(la)} vs {sorted(lb)}"
         for n in E.NAMES[m]:
